@@ -17,4 +17,4 @@ hprop.install(globals(), hprop.HistoryProperty(
     quick=(16, 60, 35), thorough=(16, 1500, 60), probes=True,
     instr_bias={"kinds": [3, 3, 3, 4, 4, 4, 6, 6, 6, 2, 5, 1, 0, 8, 7], "tclasses": [0, 1, 2, 2, 2, 2, 3, 5]},
 ))
-FLOORS = {"quick": {"flag:stationary_instruction_remote_target": 100}, "thorough": {"flag:stationary_instruction_remote_target": 1000}}
+FLOORS = {"quick": {"flag:stationary_instruction_remote_target": 60}, "thorough": {"flag:stationary_instruction_remote_target": 1000}}
